@@ -72,6 +72,12 @@ def same(fn, a, b):
         rel = 2e-6
         mag = max([abs(v) for k, v in na if k == "f" and math.isfinite(v)] + [1.0])
         abs_tol = 2e-6 if fn in ("Crystal_GetCrystal", "Crystal_MakeCopy") else 1e-4 * mag
+        if fn.startswith("Crystal_F_H_StructureFactor"):
+            # a structure factor is a sum of hundreds of electrons' worth of terms with phases 2*pi*(hx+ky+lz): single-precision coordinates
+            # (6e-8) shift each phase by up to 2*pi*(|h|+|k|+|l|)*6e-8, i.e. the sum by about 4e-6 x (number of electrons in the cell) - a few 1e-3
+            # for the largest built-in cells - however small the sum itself is (forbidden reflections: -1.2e-4 in C against 3e-13 in Java for
+            # Muscovite (3,-6,2), found by the thorough tier)
+            abs_tol = max(abs_tol, 3e-3)
     for (ka, va), (kb, vb) in zip(na, nb):
         if ka != kb:
             return False
